@@ -13,6 +13,7 @@ XA = 'src/TotalDepth/RP66V1/core/XAxis.py'
 def register(reg):
     c07.register_rp66(reg)
     register_channels(reg)
+    register_frame_array(reg)
 
 
 def standins(tier, seed):
@@ -25,7 +26,7 @@ def standins(tier, seed):
                                extra_args=['--part', 'c04'])]
 
 
-FCH = KRec('RP66V1FrameChannel', rep_code=Int, count=Int, array=KView(Int))
+FCH = KRec('RP66V1FrameChannel', rep_code=Int, count=Int, array=KView(Int), ident=Int)
 LD = c07.LD
 FIXED = {1: 2, 2: 4, 3: 8, 4: 12, 5: 4, 6: 4, 7: 8, 8: 16, 9: 24, 10: 8, 11: 16, 12: 1, 13: 2, 14: 4, 15: 1, 16: 2, 17: 4, 21: 8, 26: 1}
 SPEC = 'def fixed_len(rc):\n    return ' + ' '.join('%d if rc == %d else' % (v, k) for k, v in FIXED.items()) + ' 0\n'
@@ -43,3 +44,42 @@ def register_channels(reg):
                      # fixed length of its representation code): later channels are decoded from the same bytes as in a full read
                      ensures=['ld.index == old(ld.index) + self.count * fixed_len(self.rep_code)'],
                      canaries=['ld.index == old(ld.index)'], crosscheck=False))
+
+
+def _requested():
+    import z3
+    from pyvc.engine import AbsSet
+    mem = z3.Function('nominated', z3.IntSort(), z3.BoolSort())
+    return AbsSet(lambda e: mem(to_int(e)), z3.Bool('nominated_is_empty'))
+
+
+def register_frame_array(reg):
+    """RP66V1FrameArray.read / read_partial: whatever subset of channels is nominated, the frame's bytes are consumed channel
+    by channel - a nominated channel (and always the first one) by reading it, any other by skipping exactly its length - so
+    after the call the cursor stands at the end of the frame and every later channel was decoded from its own bytes.
+    off[c] is the ghost byte offset of channel c in the frame (off[c+1] = off[c] + count_c * fixed length of its code)."""
+    OFF = ('len(off) == len(self.channels) + 1 and off[0] == 0 and forall(0, len(self.channels), lambda c: self.channels[c].count >= 0 and '
+           'off[c + 1] == off[c] + self.channels[c].count * fixed_len(self.channels[c].rep_code) and fixed_len(self.channels[c].rep_code) > 0)')
+    reg.add(Contract(LPR, 'RP66V1FrameChannel.read', {'self': FCH, 'ld': LD, 'frame_number': Int}, requires=['self.count >= 0'],
+                     modifies=['ld.index'], trusted=True, raises={'ExceptionFrameChannel': 'frame_number >= len(self.array)'},
+                     ensures=['ld.index == old(ld.index) + self.count * fixed_len(self.rep_code)'],
+                     note='RP66V1FrameChannel.read consumes count values of its representation code (per-code consumption is proved under C07); '
+                          'numpy storage trusted'), verify=False)
+    FA = KRec('RP66V1FrameArray', channels=KView(FCH))
+    reg.add(Contract(LPR, 'RP66V1FrameArray._handle_remaining', inline=True))
+    sel = '(c == 0 or (self.channels[c].ident in channels))'
+    reg.add(Contract(
+        LPR, 'RP66V1FrameArray.read_partial', {'self': FA, 'ld': LD, 'frame_number': Int, 'channels': _requested()}, ghost={'off': KView(Int)},
+        requires=[OFF, 'frame_number >= 0',
+                  # arrays are initialised for the nominated channels (and the first), and only for them
+                  'forall(0, len(self.channels), lambda c: (len(self.channels[c].array) > frame_number) if %s else (len(self.channels[c].array) == 0))' % sel],
+        modifies=['ld.index'],
+        ensures=['ld.index == old(ld.index) + off[len(self.channels)]'],
+        loops=[Loop('for (c, channel) in enumerate(self.channels)', index='k', invariants=['ld.index == old(ld.index) + off[k]'])],
+        canaries=['ld.index == old(ld.index)'], crosscheck=False))
+    reg.add(Contract(
+        LPR, 'RP66V1FrameArray.read', {'self': FA, 'ld': LD, 'frame_number': Int}, ghost={'off': KView(Int)},
+        requires=[OFF, 'frame_number >= 0', 'forall(0, len(self.channels), lambda c: len(self.channels[c].array) > frame_number)'],
+        modifies=['ld.index'], ensures=['ld.index == old(ld.index) + off[len(self.channels)]'],
+        loops=[Loop('for channel in self.channels', index='k', invariants=['ld.index == old(ld.index) + off[k]'])],
+        canaries=['ld.index == old(ld.index)'], crosscheck=False))
